@@ -256,7 +256,7 @@ def run(ctx):
         "types_covered": covered, "types_uncovered": UNCOVERED,
         "exhaustive": False,
         "rule": "per type: the full product of the field domains of Codec.tla if < 5000 values, else every pair of (field, value) choices with the other fields at their base value; "
-                "shapes: 22 productions x 3 positions x 2 base values per decodable type; forms: every single operation and every Set followed by get/submit/encode resp. unmarshal/get/set/submit, on the constructed form AND on the form decoded (token stream / bytes) from a document of each of the 6 types of Form.tla (form, result, submit, cancel, no type attribute, unknown type); every pair (decode a document of type ty, operation); plus seeded random sequences of 5 operations (incl. the 12 decode operations) on 3 configurations; "
+                "shapes: 22 productions x 3 positions x 2 base values per decodable type; forms: every single operation and every Set followed by get/submit/encode resp. unmarshal/get/set/submit, on the constructed form AND on the form decoded (token stream / bytes) from a document of each of the 6 types of Form.tla (form, result, submit, cancel, no type attribute, unknown type); every pair (decode a document of type ty, operation); plus seeded random sequences of 5 operations (incl. the 12 decode operations) on 4 configurations (one without fields); "
                 "distinct_nontrivial = distinct abstract token lists",
         "laws": ["InDomain", "Complete", "NoFailure (no error/panic on own output; shaped documents: value or error, no panic)",
                  "WellFormed (stack automaton, no duplicate attributes)", "PathsAgree", "RoundTrip (Expect per type, normal forms stated in Codec.tla)",
